@@ -1,5 +1,5 @@
 // Correspondence harness for C16 (gRPC calls are proxied transparently to a matching
-// backend).  Four kinds of cases, all on the real code of /repo:
+// backend).  Several kinds of cases, all on the real code of /repo:
 //
 //	CLookup   GrpcProxyInterceptor.lookup (hook) on generated tables, metadata and method names
 //	CPool     histories Get / SetTable / cleanup tick / connection shutdown on the real
@@ -14,6 +14,9 @@
 //	CHistoryX one more such history in which backends are restarted on their address (graceful
 //	          stop = GOAWAY) or reset the connections they accepted while they stay in the table:
 //	          the pooled channel has to connect again for the next call (Model/GrpcTransport.v)
+//	CQuiet    histories of calls that are silent for 33 s (45 s) and pauses, each on one backend,
+//	          through a second listener process, and by clients of the harness (quiet.go,
+//	          Model/GrpcKeepalive.v); they run in the background for the whole run
 package main
 
 import (
@@ -65,7 +68,7 @@ import (
 )
 
 const preamble = `From Coq Require Import List NArith String.
-From Fabio Require Import Lib.Outcome Lib.Bytes Lib.Pack Model.GrpcPool Check.C16.
+From Fabio Require Import Lib.Outcome Lib.Bytes Lib.Pack Model.GrpcPool Model.GrpcKeepalive Check.C16.
 Import ListNotations.
 Local Open Scope N_scope.
 `
@@ -751,6 +754,9 @@ func main() {
 
 	tlsBackend := startBackend(nb, true)
 	defer tlsBackend.srv.Stop()
+	// quiet calls (32 s of real silence, 45 s in the thorough tier) run in the background from
+	// now to the end of the run, through a listener process of their own (quiet.go)
+	quiet := startQuiet(run)
 	// compiled and started while the hook-driven parts run
 	drv := startDriver(false, 150)
 	phase := time.Now()
@@ -769,8 +775,10 @@ func main() {
 	lap("session")
 	limitCases(run, r)
 	lap("limits")
+	quiet.collect(run)
+	lap("waiting_for_quiet_calls")
 
-	run.Finish(preamble, run.Scale(40, 120))
+	run.Finish(preamble, run.Scale(100, 120))
 	if len(run.Viol) > 0 {
 		fmt.Fprintf(os.Stderr, "c16: %d implementation-side violations\n", len(run.Viol))
 	}
@@ -1201,7 +1209,11 @@ const (
 var kindNames = []string{"unary", "bidi", "pingpong", "server-stream", "client-stream", "early-fail"}
 
 func doCall(cc *grpc.ClientConn, kind int, method string, md metadata.MD, reqs [][]byte, nresp int) (cv cview, herr string) {
-	ctx, cancel := context.WithTimeout(context.Background(), 8*time.Second)
+	return doCallT(cc, kind, method, md, reqs, nresp, 8*time.Second)
+}
+
+func doCallT(cc *grpc.ClientConn, kind int, method string, md metadata.MD, reqs [][]byte, nresp int, timeout time.Duration) (cv cview, herr string) {
+	ctx, cancel := context.WithTimeout(context.Background(), timeout)
 	defer cancel()
 	ctx = metadata.NewOutgoingContext(ctx, md)
 	fin := func(err error) {
